@@ -222,6 +222,19 @@ def fmt_items():
         variants = ["A(%s)" % p0, "B(%s)" % pay[-1], "U"]
         yield Item(["Display"], enum_src(g, variants, item_attrs='#[display("<{_variant}>")]\n'), ("fmt-enum", "shared", g.key, "plain", "_variant"))
         yield Item(["Display"], enum_src(g, variants, item_attrs='#[display(rename_all = "snake_case")]\n'), ("fmt-enum", "rename", g.key, "plain", "rename_all"))
+        # shared `_variant` / default formats for every Display-like trait (single-field variants delegate under the derived trait)
+        for tr in DISPLAY_LIKE:
+            at = ATTR_OF[tr]
+            if tr == "Pointer":
+                fa = p0 if (g.T or g.lt) else "*const u8"
+                fb = pay[-1] if (g.T or g.lt) else "&'static i32"
+            else:
+                fa, fb = p0, pay[-1]
+            L = {"Display": "", "Binary": "b", "Octal": "o", "LowerHex": "x", "UpperHex": "X", "LowerExp": "e", "UpperExp": "E", "Pointer": "p"}[tr]
+            vs = ["A(%s)" % fa, '#[%s("own {_0:%s}")] B(%s)' % (at, L, fb), "C { x: %s }" % fa]
+            yield Item([tr], enum_src(g, vs, item_attrs='#[%s("<{_variant}>")]\n' % at), ("fmt-enum", "shared-wrap", g.key, "plain", tr + ":_variant"))
+            vs = ["A(%s)" % fa, '#[%s("{_0:%s}")] B(%s)' % (at, L, fb), "C(%s)" % fb]
+            yield Item([tr], enum_src(g, vs, item_attrs='#[%s("dflt {_0:%s}")]\n' % (at, L)), ("fmt-enum", "shared-default", g.key, "plain", tr + ":default"))
         variants = ["A(%s)" % p0, "B { x: %s, #[debug(skip)] y: u8 }" % pay[-1], "U", "E0()", "E1 {}", "r#Loop(u8)"]
         yield Item(["Debug"], enum_src(g, variants), ("debug-enum", "mixed", g.key, "raw-variant", "skip"))
         # explicit bounds
@@ -396,6 +409,12 @@ def special_items():
     yield Item(["Deref", "DerefMut", "AsRef", "AsMut", "From", "Constructor"], "pub struct @N@<T: ?::core::marker::Sized>(::std::boxed::Box<T>);", ("special", "boxed-unsized", "T:?Sized", "plain", "-"))
     yield Item(["Deref"], "#[deref(forward)]\npub struct @N@<T: ?::core::marker::Sized>(::std::boxed::Box<T>);", ("special", "boxed-unsized", "T:?Sized", "plain", "forward"))
     yield Item(["Display"], '#[display("{}", _0)]\npub struct @N@<\'a, T: ?::core::marker::Sized>(&\'a T);', ("special", "ref-unsized", "'a,T:?Sized", "plain", "attr"))
+    # unsized fields with explicit AsRef targets (run-time glue in src/as.rs must accept `?Sized`)
+    yield Item(["AsRef"], "#[as_ref([u8])]\npub struct @N@(str);", ("special", "unsized-field", "none", "plain", "as_ref-types"))
+    yield Item(["AsRef"], "#[as_ref([u8], ::std::path::Path)]\npub struct @N@(str);", ("special", "unsized-field", "none", "plain", "as_ref-types2"))
+    yield Item(["AsRef"], "pub struct @N@ { id: u8, #[as_ref(str, [u8])] key: str }", ("special", "unsized-last-field", "none", "plain", "as_ref-field-types"))
+    yield Item(["AsRef", "AsMut"], "#[as_ref([u8])]\n#[as_mut([u8])]\npub struct @N@([u8]);", ("special", "unsized-field", "none", "plain", "own-type"))
+    yield Item(["AsRef", "Deref"], "#[as_ref(forward)]\npub struct @N@(str);", ("special", "unsized-field", "none", "plain", "forward"))
     # associated types, trait-bounded where clauses, higher-ranked bounds
     yield Item(["Display", "Debug", "Constructor"], "pub struct @N@<T: Tr>(T::Assoc) where T::Assoc: ::core::marker::Copy;", ("special", "assoc-type", "T:Tr", "plain", "-"))
     yield Item(["Debug", "From", "Constructor"], "pub struct @N@<T: Tr> { a: <T as Tr>::Assoc, b: ::core::marker::PhantomData<T> }", ("special", "assoc-type-qualified", "T:Tr", "plain", "-"))
